@@ -21,7 +21,7 @@ class HppClient:
 		
 		self.call_id = 1
 		
-		ca = resources.certificate("files/cert/CACERT_NINTENDO_CLASS2_CA_G3.der")
+		ca = resources.certificate("CACERT_NINTENDO_CLASS2_CA_G3.der")
 		self.context = tls.TLSContext()
 		self.context.set_authority(ca)
 
